@@ -41,6 +41,7 @@ TIERS = {
 EXPECTED_PROBES = ['client_batches_applied', 'client_store_compared',
                    'pool_vs_store_compared', 'reload_delta_seen']
 KNOBS = {'span': (3, 5), 'p_runahead': 0.4, 'n_tasks': (2, 5), 'p_abs': 0.15,
+         'p_family': 0.3,
          'p_retries': 0.3}
 
 
